@@ -2,6 +2,7 @@
 // gauss_seidel.hpp, detail/ilu_solve.hpp, amg.hpp).  Read-only views of private tables.
 #ifndef VQ_ACCESS_HPP
 #define VQ_ACCESS_HPP
+#include <memory>
 namespace amgcl { namespace verif {
 struct access {
     template <class GS> static auto gs_forward (const GS &g) -> decltype((g.forward))  { return g.forward;  }
@@ -14,6 +15,14 @@ struct access {
     template <class I>  static auto ilu_D(const I &s) -> decltype((s.D)) { return s.D; }
     template <class A>  static auto levels(const A &a) -> decltype((a.levels)) { return a.levels; }
     template <class A>  static auto levels_mut(A &a) -> decltype((a.levels)) { return a.levels; }
+    // (C09) build the private level-schedule objects directly, for any thread count
+    // (gauss_seidel itself falls back to the serial sweep below 4 threads)
+    template <class GS, class M> static auto gs_make_forward(const M &A)
+        -> std::shared_ptr<typename GS::template parallel_sweep<true> > {
+        return std::make_shared<typename GS::template parallel_sweep<true> >(A); }
+    template <class GS, class M> static auto gs_make_backward(const M &A)
+        -> std::shared_ptr<typename GS::template parallel_sweep<false> > {
+        return std::make_shared<typename GS::template parallel_sweep<false> >(A); }
 };
 } }
 #endif
